@@ -7,11 +7,13 @@
   for EVERY chunk schedule (any number of cuts, anywhere) the resumed calls return the verdict, offset and
   object of fresh one-shot calls on the same prefixes.
 
-  Proved here (no hypotheses, any buffer size): ParseCallIDVal, ParseUIntVal (= ParseExpiresVal),
-  ParseCLenVal, SkipQuoted.
-  NOT yet proved (covered by the correspondence + oracle checks only): ParseFLine, ParseHdrLine,
-  ParseHeaders, ParseNameAddrPVal / ParseFromVal / ParseOneContact / ParseOnePAI, ParseAllContactValues,
-  ParseAllPAIValues, ParseCSeqVal, ParseTokenParam, ParseAllURIParams, ParseAllURIHdrs. They are instances of
+  Proved here (any buffer size): ParseCallIDVal, ParseUIntVal (= ParseExpiresVal), ParseCLenVal, SkipQuoted
+  (no hypotheses); ParseCSeqVal and ParseFLine (for objects that are new or were returned by an earlier call
+  on a prefix of the buffer: `csOK`, `flOK`, re-established at every suspension, so the schedule theorem
+  applies to every chunk schedule starting from a new object).
+  NOT yet proved (covered by the correspondence + oracle checks only): ParseHdrLine, ParseHeaders,
+  ParseNameAddrPVal / ParseFromVal / ParseOneContact / ParseOnePAI, ParseAllContactValues,
+  ParseAllPAIValues, ParseTokenParam, ParseAllURIParams, ParseAllURIHdrs. They are instances of
   the same generic theorems (`runLoop_resume` + one restart lemma per suspension site); the theorem below
   named `all_parsers_partial` states the full property with exactly those missing pieces as hypotheses.
 -/
@@ -19,6 +21,7 @@ import Sipsp.Proofs.CallID
 import Sipsp.Proofs.UInt
 import Sipsp.Proofs.SkipQuoted
 import Sipsp.Proofs.Schedule
+import Sipsp.Proofs.FLine
 import Sipsp.Model.Msg
 
 namespace Sipsp.C02
@@ -32,6 +35,25 @@ theorem resume_uint : Resumable parseUIntVal :=
 
 theorem resume_clen : Resumable parseCLenVal :=
   fun b s o st _ _ h => parseCLenVal_resume b s o st h
+
+/-- ParseCSeqVal: one-step law, with the invariant re-established on the extended buffer -/
+theorem resume_cseq : ResumableI parseCSeqVal csOK :=
+  fun b s o st _ _ hI h => parseCSeqVal_resume b s o st hI h
+
+/-- every chunk schedule, CSeq, starting from a new object at an offset inside the first chunk -/
+theorem schedule_cseq (o : Nat) (l : List Buf) (hg : Growing l) (h0 : ∀ b ∈ l.head?, o ≤ b.size) :
+    resumeRun parseCSeqVal o {} l = oneShotRun parseCSeqVal o {} l :=
+  resumeRun_eq_oneShotI parseCSeqVal csOK resume_cseq (fun b s o st h => by
+      rcases h with h | h
+      · exact Or.inl h
+      · exact Or.inr (csInv_grows b s o st h)) o {} l hg
+    (fun b hb => Or.inr ⟨h0 b hb, by simp, by simp⟩)
+
+/-- ParseFLine: one-step law within the documented 65,535-byte limit -/
+theorem resume_fline (b s : Buf) (o : Nat) (pl : PFLine) (ho : o ≤ b.size) (hok : flOK pl)
+    (hfit : b.size ≤ 65535) {o' : Nat} {pl' : PFLine} (h : parseFLine b o pl = (o', Err.moreBytes, pl')) :
+    parseFLine (b ++ s) o' pl' = parseFLine (b ++ s) o pl ∧ flOK pl' ∧ o' ≤ b.size :=
+  parseFLine_resume b s o pl ho hok hfit h
 
 /-- SkipQuoted as a parser over the trivial object -/
 def skipQuotedP : Parser Unit := fun b o _ => ((skipQuoted b o).1, (skipQuoted b o).2, ())
